@@ -212,7 +212,7 @@ s_queue(void)
 	struct elasticqueue * Q;
 	uint32_t m[4096];
 	size_t head = 0, tail = 0, i;
-	int op;
+	int op, bias = 0;
 	uint64_t nf = NF();
 
 	if ((Q = elasticqueue_init(sizeof(uint32_t))) == NULL) {
@@ -221,8 +221,16 @@ s_queue(void)
 		return;
 	}
 	for (op = 0; op < 300; op++) {
+		/*
+		 * Phases of mostly adding and mostly deleting, so that the queue
+		 * repeatedly grows to dozens of records and drains to (nearly)
+		 * nothing: compaction and the shrinking of the array happen with
+		 * the allocator refusing.
+		 */
+		if (op % 25 == 0)
+			bias = (int)vh_below(&R, 3);
 		nf = NF();
-		if (vh_below(&R, 5) < 3 && tail < 4096) {
+		if (vh_below(&R, 10) < (bias == 0 ? 6 : bias == 1 ? 9 : 1) && tail < 4096) {
 			uint32_t v = (uint32_t)vh_u64(&R);
 
 			if (elasticqueue_add(Q, &v) == 0)
@@ -255,7 +263,7 @@ s_map(void)
 	static char objs[2048];
 	int live[2048];
 	int64_t next = 0, i;
-	int op;
+	int op, bias = 0;
 	uint64_t nf = NF();
 
 	if ((M = seqptrmap_init()) == NULL) {
@@ -265,8 +273,11 @@ s_map(void)
 	}
 	memset(live, 0, sizeof(live));
 	for (op = 0; op < 300; op++) {
+		/* growing and draining phases, as in the queue scenario */
+		if (op % 25 == 0)
+			bias = (int)vh_below(&R, 3);
 		nf = NF();
-		if (vh_below(&R, 5) < 3 && next < 2048) {
+		if (vh_below(&R, 10) < (bias == 0 ? 6 : bias == 1 ? 9 : 1) && next < 2048) {
 			int64_t r = seqptrmap_add(M, &objs[next]);
 
 			if (getenv("VERIF_C14_TRACE"))
@@ -558,19 +569,30 @@ s_events(void)
 	struct ev e[60];
 	void * ck[60];
 	int kind[60], fdof[60], opof[60];
-	int fds[4], i, n = 0, round, rc;
+	int fds[24], i, n = 0, round, rc;
+	/*
+	 * Half the time many descriptors and mostly socket registrations in the
+	 * first round, so that more than 16 (and sometimes 32) descriptors are
+	 * registered at once and the loop's per-descriptor arrays have to grow
+	 * while holding live registrations.
+	 */
+	int nfd = vh_chance(&R, 1, 2) ? 4 : 24;
 	uint64_t nf;
 
 	memset(e, 0, sizeof(e));
-	for (i = 0; i < 4; i++)
+	for (i = 0; i < nfd; i++)
 		fds[i] = simk_newfd();
 	for (round = 0; round < 3; round++) {
 		int nreg = (int)vh_range(&R, 3, 12);
 
+		if (nfd > 4 && round == 0)
+			nreg = (int)vh_range(&R, 22, 40);
 		for (i = 0; i < nreg && n < 60; i++, n++) {
 			struct timeval tv = { 0, (suseconds_t)vh_below(&R, 5000) };
 
 			kind[n] = (int)vh_below(&R, 3);
+			if (nfd > 4 && round == 0 && vh_chance(&R, 3, 4))
+				kind[n] = 1;
 			nf = NF();
 			if (kind[n] == 0) {
 				ck[n] = events_immediate_register(ev_cb, &e[n], (int)vh_below(&R, 32));
@@ -578,7 +600,7 @@ s_events(void)
 			} else if (kind[n] == 1) {
 				int j, dup = 0;
 
-				fdof[n] = fds[vh_below(&R, 4)];
+				fdof[n] = fds[vh_below(&R, (uint64_t)nfd)];
 				opof[n] = (int)vh_below(&R, 2);
 				for (j = 0; j < n; j++)
 					if (kind[j] == 1 && e[j].registered && !e[j].fired &&
@@ -610,7 +632,7 @@ s_events(void)
 			}
 		}
 		/* readiness for some descriptors; run the loop */
-		for (i = 0; i < 4; i++) {
+		for (i = 0; i < nfd; i++) {
 			simk_get(fds[i])->rd = (int)vh_below(&R, 2);
 			simk_get(fds[i])->wr = (int)vh_below(&R, 2);
 		}
@@ -648,7 +670,7 @@ s_events(void)
 	}
 	/* Drain without faults. */
 	faults_off();
-	for (i = 0; i < 4; i++)
+	for (i = 0; i < nfd; i++)
 		simk_get(fds[i])->rd = simk_get(fds[i])->wr = 1;
 	simk_advance(1000000);
 	for (round = 0; round < 200; round++) {
@@ -671,7 +693,7 @@ s_events(void)
 		if (!e[i].registered && e[i].fired > 0 && ck[i] == NULL)
 			viol("events:failed-registration-fired", "a registration which reported failure ran its callback");
 	}
-	for (i = 0; i < 4; i++)
+	for (i = 0; i < nfd; i++)
 		simk_closefd(fds[i]);
 }
 
@@ -1117,8 +1139,14 @@ s_http(void)
 	void * c;
 	int chunked = (int)vh_below(&R, 2);
 
+	/* interim responses: none, bare, with header lines, several */
+	static const char * interim[] = { "", "HTTP/1.1 100 Continue\r\n\r\n",
+	    "HTTP/1.1 100 Continue\r\nX-I: 1\r\nY: 2\r\n\r\n",
+	    "HTTP/1.1 102 Processing\r\nP: q\r\n\r\nHTTP/1.1 100 Continue\r\n\r\n"
+	    "HTTP/1.1 103 Early Hints\r\nLink: </a>\r\nLink: </b>\r\nLink: </c>\r\nLink: </d>\r\n\r\n" };
+
 	n = (size_t)snprintf((char *)resp, sizeof(resp),
-	    "HTTP/1.1 100 Continue\r\n\r\nHTTP/1.1 200 OK\r\nA: b\r\nC: d\r\n%s\r\n",
+	    "%sHTTP/1.1 200 OK\r\nA: b\r\nC: d\r\n%s\r\n", interim[vh_below(&R, 4)],
 	    chunked ? "Transfer-Encoding: chunked\r\n" : "Content-Length: 5000\r\n");
 	if (chunked) {
 		n += (size_t)snprintf((char *)resp + n, sizeof(resp) - n, "1000\r\n");
